@@ -480,12 +480,17 @@ pub fn execute(sc: &CrashScenario, sh: &Shared) -> Value {
                         // cr_e is the refused target unless it is already faked (then bytes are
                         // the live patch and must stay exactly that)
                         let before = slot(cr_e as fn(u32) -> u32 as usize);
+                        let os_kind = matches!(s.how.as_str(), "enomem" | "mprotect" | "mprotect_persistent");
+                        let mut accepted_despite_os_fault = false;
                         if s.caught {
                             let r = catch_unwind(AssertUnwindSafe(|| do_refused(&mut inj, &s.how)));
                             interpose::arm(false);
                             let f = interpose::faults();
                             interpose::set_faults(Faults::default());
                             match r {
+                                Ok(()) if os_kind => {
+                                    accepted_despite_os_fault = true;
+                                }
                                 Ok(()) => v("refusable-install-accepted", &["C05", "C09"], format!("lifetime {li} step {si}: installation that must be refused ({}) succeeded", s.how)),
                                 Err(p) => {
                                     let msg = panic_msg(&p);
@@ -500,7 +505,25 @@ pub fn execute(sc: &CrashScenario, sh: &Shared) -> Value {
                         } else {
                             expect_panic = Some(format!("refused:{}", s.how));
                             do_refused(&mut inj, &s.how);
-                            v("refusable-install-accepted", &["C05", "C09"], format!("lifetime {li} step {si}: installation that must be refused ({}) succeeded", s.how));
+                            interpose::arm(false);
+                            interpose::set_faults(Faults::default());
+                            if os_kind {
+                                accepted_despite_os_fault = true;
+                                expect_panic = None;
+                            } else {
+                                v("refusable-install-accepted", &["C05", "C09"], format!("lifetime {li} step {si}: installation that must be refused ({}) succeeded", s.how));
+                            }
+                        }
+                        if accepted_despite_os_fault {
+                            // The installation did not depend on the refused OS call (e.g. no
+                            // trampoline was needed): legitimate, and judged by behaviour -- the
+                            // function must now answer with the fake.  The lifetime ends here.
+                            *probes.entry("os_fault_did_not_prevent_the_installation".into()).or_insert(0) += 1;
+                            let redirected = if s.how == "mprotect_persistent" { slot(LONELY_FN as usize) != pristine[5] } else { black_box(cr_e as fn(u32) -> u32)(1) == 501 };
+                            if !redirected {
+                                v("accepted-install-does-not-redirect", &["C05", "C01"], format!("lifetime {li} step {si}: the installation under an OS fault ({}) reported success but the function is not redirected", s.how));
+                            }
+                            break;
                         }
                     }
                     w => panic!("harness: unknown step {w}"),
